@@ -593,7 +593,8 @@ PROPS["C16"] = dict(
                          "hand-rolled executor in the harness: every call is a boxed future with its own counting waker, polled at creation and again (smallest id first) whenever its waker has fired",
                          "dropping a future that is still queued for the lock (cancellation) is not exercised or modelled"],
     assumptions=["guarded histories: one SharedObservable with 1-3 subscribers; handles are not cloned/dropped while guards are held (handle life-cycle is covered by the unguarded histories)",
-                 "thread schedules of the async flavour are not forced (single-threaded executor); the default flavour's schedules are C02-C04"],
+                 "thread schedules of the async flavour are not forced (single-threaded executor); the default flavour's schedules are C02-C04",
+                 "as the property's quantifier says, every future is polled again once its waker has fired and a subscriber has at most one unfinished call: a Stream poll that answered Pending while a guard was held and is then abandoned is outside (DESIGN.md section 6, observation)"],
     strength="full at operation/poll granularity for single-threaded executors (unguarded histories: equality with the default flavour call by call; guarded histories: refinement of the default flavour's specification linearised at future completion, no lost wake-up); tokio's RwLock is modelled",
     level_text="Coq theorems: except for the count functions the async-flavour model is the default-flavour model call by call, hence refines the same specification (C01-C03 transfer); in the permit-semaphore model of tokio's RwLock an acquire with nothing held or queued succeeds at once, and a queued writer is woken when the holders release. For histories with guards held across calls (AsyncGuard.v: every call a future that acquires, steps, releases; next()/next_ref() acquire twice) the theorems of AsyncGuardFacts.v apply (see props/C16.v). Tied to the crate by running the C01-C03 histories on the async API with every future polled once, and exhaustive + random guarded histories with a waker-driven executor, against the model and against the specification oracle (ok:aspec: each completed call equals the default flavour's specification at its completion; ok:alive: with no guard held and nothing woken, no call is stuck unless it is a subscriber with nothing new to see).",
     level_note="Trusted: as C01, plus tokio's RwLock as a permit semaphore. The count functions differ (F8, see C19).")
